@@ -1,6 +1,7 @@
 package wasp
 
 import (
+	"github.com/vx-labs/wasp/v4/wasp/sessions"
 	"bytes"
 
 	"github.com/vx-labs/mqtt-protocol/packet"
@@ -45,6 +46,20 @@ func symxC13() {
 	c := symxNewConn()
 	rt.Assert(f1.connect(c, symxConnectBytes("cid", 30, "", []byte(wt), payload, wq, retain)) == nil, "C13.connect_accepted")
 	rt.Quiesce()
+	// by solver choice node 1 also hosts a will-bearing session of another tenant: it stays
+	// connected unless the node itself fails, and then its will belongs to its own tenant
+	second := rt.Param("second", 1) == 1 && rt.Bool("second_will_bearing_session_in_another_tenant")
+	var cd *symxConn
+	if second {
+		f1n := p1.front(&symxAuth{mountPoint: "n", ids: []string{"dying2"}})
+		c2 := symxNewConn()
+		symxTick()
+		rt.Assert(f1n.connect(c2, symxConnectBytes("cid2", 30, "", []byte("v"), []byte("w2"), 0, false)) == nil, "C13.connect_accepted")
+		rt.Quiesce()
+		var wd *sessions.Session
+		wd, cd = b2.session("wd", "cwd", "n", 30)
+		p2.proc.Process(b2.ctx, wd, cd, &packet.Subscribe{Header: &packet.Header{}, MessageId: 1, Topic: [][]byte{[]byte("#")}, Qos: []int32{0}})
+	}
 	// watchers: same tenant on node 1 and on node 2, another tenant on node 2
 	fa, fb := symxWatchFilters[rt.Int("filter_local", 0, 4)], symxWatchFilters[rt.Int("filter_remote", 0, 4)]
 	wa, ca := b1.session("wa", "cwa", "m", 30)
@@ -91,6 +106,14 @@ func symxC13() {
 	check(ca, fa, cause != 4, "C13.local_watcher_receives_the_will_exactly_when_due")
 	check(cb, fb, true, "C13.remote_watcher_receives_the_will_exactly_when_due")
 	rt.Assert(len(symxPublishes(cc.written())) == 0, "C13.other_tenant_never_sees_the_will")
+	if second {
+		got := symxPublishes(cd.written())
+		if cause == 4 {
+			rt.Assert(len(got) == 1 && string(got[0].Topic) == "v" && bytes.Equal(got[0].Payload, []byte("w2")), "C13.each_lost_session_has_its_will_published_in_its_own_mount_point")
+		} else {
+			rt.Assert(len(got) == 0, "C13.a_session_that_stays_connected_publishes_no_will")
+		}
+	}
 	rt.Cover(cause == 4 && symxWillMatches(fb, wt), "C13.host_failure_with_matching_survivor_watcher")
 	rt.Cover(cause == 1 && symxWillMatches(fa, wt) && symxWillMatches(fb, wt), "C13.connection_loss_two_watchers")
 	b1.cancel()
